@@ -3,6 +3,7 @@ from __future__ import annotations
 
 import json
 import os
+import random
 import sys
 import time
 import concurrent.futures as cf
@@ -13,6 +14,7 @@ from mbt.drive import textbody as T
 PID = "C04"
 ALL = "1,2,3,4,5,6,7,8,9,10,11,12,13,14,15"
 CORE = "1,2,3,5,6,11,13"           # NL VT TAB C0 SP PLAIN XESC: the classes the translation distinguishes
+TEN = "1,2,3,4,5,6,7,8,11,13"       # + CR LT AMP (length 4)
 SITES3 = '"frame","cell","shape"'
 CFG = """SPECIFICATION Spec
 CONSTANTS MAXLEN = %(maxlen)d
@@ -44,7 +46,8 @@ def explore(work, name, **kw):
     priors = r.printed("PRIORS")
     if not priors or not cases:
         raise E.MachineryError("MC_TextBody[%s] emitted %d cases / %d prior tables" % (name, len(cases), len(priors)))
-    cases.sort(key=lambda h: json.dumps(h, sort_keys=True))
+    cases.sort(key=lambda h: json.dumps(h, sort_keys=True))     # TLC's output order is not deterministic with several workers
+    random.Random(E.seed() + 4).shuffle(cases)                  # mixes levels and lengths evenly over batches and chunks
     return cases, priors[-1], r, d
 
 
@@ -68,32 +71,41 @@ def scenarios(name, cases, priors, offset=0):
     return out
 
 
-def _job(args):
-    scns, seed = args
-    return T.run_batch(scns, seed)
+CHUNK = 10 * BATCH
 
 
-def validate_traces(traces, work, tag):
-    chunks, cur, n = [], [], 0
+def _chunk_job(args):
+    """Worker: drive one chunk of scenarios on the real library, write the traces, have TLC validate them."""
+    ix, scns, seed, work = args
+    t0 = time.time()
+    traces = []
+    for i in range(0, len(scns), BATCH):
+        traces += T.run_batch(scns[i:i + BATCH], seed)
+    used, ops = set(), {}
     for t in traces:
-        cur.append(t)
-        n += len(t["steps"]) + 1
-        if n > 24000:
-            chunks.append(cur)
-            cur, n = [], 0
-    if cur:
-        chunks.append(cur)
-    bad, tot = [], {}
+        used.update(t.pop("used"))
+        for s in t["steps"]:
+            ops[s["a"]["op"]] = ops.get(s["a"]["op"], 0) + 1
+    t1 = time.time()
+    sub = os.path.join(work, "obs", "%04d" % ix)
+    os.makedirs(sub, exist_ok=True)
+    path = os.path.join(sub, "traces.json")
+    with open(path, "w") as f:
+        json.dump({"traces": traces}, f, separators=(",", ":"))
+    r = E.run_tlc("Trace_TextBody", "Trace_TextBody.cfg", work=sub, env={"TRACE_FILE": path}, workers=1, timeout=3000, heap="3g")
+    summ = r.printed("SUMMARY")
+    if not summ:
+        raise E.MachineryError("no SUMMARY from Trace_TextBody on %s:\n%s" % (path, "\n".join(r.out.splitlines()[-15:])))
+    return {"path": path, "bad": r.printed("VERDICT"), "summary": summ[-1], "used": sorted(used), "ops": ops, "n": len(traces),
+            "drive_s": t1 - t0, "validate_s": time.time() - t1}
 
-    def run(ix_c):
-        ix, c = ix_c
-        return E.validate("Trace_TextBody", {"traces": c}, work=work, name="%s%d" % (tag, ix), heap="4g", timeout=3000)
-    with cf.ThreadPoolExecutor(12) as ex:
-        for b, s, _ in ex.map(run, list(enumerate(chunks))):
-            bad += b
-            for k, v in s.items():
-                tot[k] = tot.get(k, 0) + v
-    return bad, tot
+
+def load_traces(paths):
+    out = []
+    for p in paths:
+        with open(p) as f:
+            out += json.load(f)["traces"]
+    return out
 
 
 def selftest(traces, work):
@@ -166,8 +178,8 @@ def main() -> int:
     replay = sys.argv[sys.argv.index("--replay") + 1] if "--replay" in sys.argv else None
     if thorough:
         cfgs = [("all3", dict(maxlen=3)),
-                ("par4", dict(maxlen=4, priors="2", sites='"frame"')),
-                ("cs4", dict(maxlen=4, priors="1", sites='"cell","shape"')),
+                ("par4", dict(maxlen=4, alpha=TEN, priors="2", sites='"frame"')),
+                ("cs4", dict(maxlen=4, alpha=TEN, priors="1", sites='"cell","shape"')),
                 ("core5", dict(maxlen=5, alpha=CORE, priors="4", sites='"frame"')),
                 ("deep", dict(maxlen=1, alpha=CORE, depth=2, build="TRUE"))]
     else:
@@ -195,26 +207,35 @@ def main() -> int:
     t_tlc = time.time() - t0
     seed = json.load(open(replay)).get("seed", E.seed()) if replay else E.seed()
     t0 = time.time()
-    batches = [(scns[i:i + BATCH], seed) for i in range(0, len(scns), BATCH)]
-    traces = [t for b in E.pmap(_job, batches, procs=16, chunk=1) for t in b]
-    t_drive = time.time() - t0
-    used = sorted({c for t in traces for c in t.pop("used")})
+    jobs = [(n, scns[i:i + CHUNK], seed, work) for n, i in enumerate(range(0, len(scns), CHUNK))]
+    res = E.pmap(_chunk_job, jobs, procs=16, chunk=1)
+    t_run = time.time() - t0
+    used = sorted({c for r in res for c in r["used"]})
+    tot, ops = {}, {}
+    for r in res:
+        for k, v in r["summary"].items():
+            tot[k] = tot.get(k, 0) + v
+        for k, v in r["ops"].items():
+            ops[k] = ops.get(k, 0) + v
+    ntraces = sum(r["n"] for r in res)
+    if ntraces != len(scns) or tot.get("traces") != len(scns):
+        raise E.MachineryError("%d scenarios, %d traces driven, %s validated" % (len(scns), ntraces, tot.get("traces")))
     if do_selftest:
-        selftest(traces, work)
-    t0 = time.time()
-    bad, tot = validate_traces(traces, work, "obs")
-    t_val = time.time() - t0
-    byid = {t["id"]: t for t in traces}
+        selftest(load_traces([r["path"] for r in res[:4]]), work)
     scid = {s["id"]: s for s in scns}
     rej = []
-    for v in bad:
-        for b in v["bad"]:
-            tr = byid[v["id"]]
-            a = tr["steps"][b["k"] - 1]["a"]
-            rej.append((sum(len(x.get("s", [])) for x in scid[v["id"]]["acts"]), len(scid[v["id"]]["acts"]), v["id"], b, a))
+    for r in res:
+        if not r["bad"]:
+            continue
+        byid = {t["id"]: t for t in load_traces([r["path"]])}
+        for v in r["bad"]:
+            for b in v["bad"]:
+                tr = byid[v["id"]]
+                rej.append((sum(len(x.get("s", [])) for x in scid[v["id"]]["acts"]), len(scid[v["id"]]["acts"]), v["id"], b,
+                            tr["steps"][b["k"] - 1]["a"], tr))
     rej.sort(key=lambda x: (x[0], x[1], x[2]))
-    for _, _, tid, b, a in rej:
-        tr, sc = byid[tid], scid[tid]
+    for _, _, tid, b, a, tr in rej[:2000]:
+        sc = scid[tid]
         clause = "+".join(sorted(b["failing"]))
         conc = T.describe(sc, seed)
         rep.reject("%s@%s[%s]" % (clause, a["op"], tr["site"]),
@@ -230,24 +251,19 @@ def main() -> int:
         need = ["SetFrame", "SetCell", "SetShapeText", "SetPara", "SetRun", "SaveReopen", "AddPara", "AddRun", "AddBreak", "SetParaProp"]
         if any(not actions.get(a) for a in need):
             raise E.MachineryError("vacuous: action never taken in the model: %s" % {a: actions.get(a, 0) for a in need})
-        ops = {}
-        for t in traces:
-            for s in t["steps"]:
-                ops[s["a"]["op"]] = ops.get(s["a"]["op"], 0) + 1
         if any(not ops.get(a) for a in need) or not tot.get("assigns") or not tot.get("reopens"):
             raise E.MachineryError("vacuous: operation never replayed: %s" % ops)
         c0 = [c for c in used if c % 16 == T.C0]
         if len(c0) < len(T.REPS[T.C0]):
             raise E.MachineryError("only %d of the %d other C0 controls were used" % (len(c0), len(T.REPS[T.C0])))
-    else:
-        ops = {}
     mid = scns[len(scns) // 2]
     smp = [{"id": s["id"], "site": s["site"], "prior": s["prior"], "calls": T.describe(s, seed)} for s in (scns[0], mid, scns[-1])]
-    cov = {"states": max(states, 1), "transitions": max(trans, 1), "traces_validated_against_impl": len(traces),
+    cov = {"states": max(states, 1), "transitions": max(trans, 1), "traces_validated_against_impl": ntraces,
            "real_steps_validated": tot.get("steps", 0), "assignments_validated": tot.get("assigns", 0),
            "reopen_steps_validated": tot.get("reopens", 0), "configs": per_cfg, "action_counts": actions, "replayed_ops": ops,
            "distinct_concrete_characters": len(used), "validated": tot, "samples": smp, "exhaustive": True,
-           "phase_wall_s": {"tlc_explore": round(t_tlc, 1), "drive": round(t_drive, 1), "tlc_validate": round(t_val, 1)},
+           "phase_wall_s": {"tlc_explore": round(t_tlc, 1), "drive_and_validate": round(t_run, 1),
+                            "drive_cpu": round(sum(r["drive_s"] for r in res), 1), "tlc_validate_cpu": round(sum(r["validate_s"] for r in res), 1)},
            "rule": "TLC enumerates every string of length <= MAXLEN over the class alphabet at every level (frame/cell/shape, every "
                    "paragraph, every run) on every prior body x container of the config, plus histories of 2 actions incl. builders "
                    "(one per reachable body x action); each emitted history is replayed on a real text box / table cell / autoshape "
